@@ -1,5 +1,5 @@
 #!/usr/bin/env python3
-"""mutation_run.py <out.tsv> [--props C01,C02] [--per N] [--offset K]
+"""mutation_run.py <out.tsv> [--props C01,C02] [--per N] [--offset K] [--phase checks|tests]
 
 Development tool (not a registered check): measures which first-order syntactic mutants of the code each
 property is anchored in are reported by that property's quick check. For every selected mutant (bin/vmutate;
@@ -7,7 +7,9 @@ an evenly spaced selection of N per property, shifted by K) in a scratch worktre
   compile -> the property's quick checks (VERIF_REPO / VERIF_OUT isolation) -> if no check reports it:
   the package's tests, then the whole suite.   Status per mutant:
     nocompile | killed:<check> | tests-pkg | tests-suite | SURVIVOR (passes the suite and the checks)
-SURVIVORs are either equivalent mutants or gaps in the checks; they are triaged by hand (DESIGN.md 9.3).
+SURVIVORs are either equivalent mutants or gaps in the checks; they are triaged by hand (DESIGN.md 9.5).
+--phase checks stops after the property's checks (status NOT-KILLED-BY-CHECK); --phase tests re-reads the
+file and runs the package tests / the suite only for those entries, rewriting their status.
 """
 import json, os, subprocess, sys, tempfile, shutil
 
@@ -67,22 +69,49 @@ def sh(cmd, cwd=None, timeout=1800, env=None):
 def main():
     out = sys.argv[1]
     props = sorted(TARGETS)
-    per, offset = 12, 0
+    per, offset, phase = 12, 0, 'both'
     a = sys.argv[2:]
     while a:
         if a[0] == '--props': props = a[1].split(','); a = a[2:]
         elif a[0] == '--per': per = int(a[1]); a = a[2:]
         elif a[0] == '--offset': offset = int(a[1]); a = a[2:]
+        elif a[0] == '--phase': phase = a[1]; a = a[2:]
         else: raise SystemExit('bad arg ' + a[0])
     mx = tempfile.mkdtemp(prefix='verif-mut.', dir='/tmp')
     wt = mx + '/wt'
     rc, o = sh(f'git -C /repo worktree add -q --detach {wt} HEAD')
     if rc: raise SystemExit(o)
     done = set()
+    pending = []
     if os.path.exists(out):
         for l in open(out):
             f = l.rstrip('\n').split('\t')
-            if len(f) > 4: done.add((f[0], f[1], f[2]))
+            if len(f) > 5 and f[5] == 'NOT-KILLED-BY-CHECK' and phase == 'tests':
+                pending.append(f)
+            elif len(f) > 4: done.add((f[0], f[1], f[2]))
+    if phase == 'tests':
+        try:
+            with open(out, 'a') as log:
+                for f in pending:
+                    prop, file, n, line, desc = f[:5]
+                    funcs = dict(TARGETS[prop][1])[file]
+                    sh(f'git -C {wt} checkout -q -- . ; git -C {wt} clean -fdq')
+                    sh(f'/verif/bin/vmutate -file {wt}/{file} -funcs "{funcs}" -apply {n} -out {wt}/{file}')
+                    pkg = './' + os.path.dirname(file)
+                    rc, o = sh(f'go test -vet=off -count=1 {pkg}', cwd=wt, timeout=900)
+                    detail = ''
+                    if rc != 0: status = 'tests-pkg'
+                    else:
+                        rc, o = sh('go test -vet=off -count=1 ./...', cwd=wt, timeout=1500)
+                        if rc != 0:
+                            status = 'tests-suite'
+                            detail = ' '.join(x for x in o.splitlines() if x.startswith('--- FAIL'))[:160]
+                        else: status = 'SURVIVOR'
+                    log.write('\t'.join([prop, file, n, line, desc, status, detail, 'phase2']) + '\n'); log.flush()
+        finally:
+            sh(f'git -C /repo worktree remove --force {wt}')
+            shutil.rmtree(mx, ignore_errors=True)
+        return
     try:
         with open(out, 'a') as log:
             for prop in props:
@@ -117,6 +146,8 @@ def main():
                             if rc not in (0, 1):
                                 status, detail = 'check-error:' + c, o[-200:].replace('\n', ' ')
                                 break
+                        if status is None and phase == 'checks':
+                            status = 'NOT-KILLED-BY-CHECK'
                         if status is None:
                             rc, o = sh(f'go test -vet=off -count=1 {pkg}', cwd=wt, timeout=900)
                             if rc != 0: status = 'tests-pkg'
